@@ -158,7 +158,7 @@ theorem impl_agrees_with_spec (p : Pdu) (h : WF₂ p) (hw : p.WF) :
 /-- **layouts.** The `struct` formats and the item type codes of the running code (regenerated by
 introspection on every run) are those of the standard's tables. -/
 theorem layouts_are_standard : Dicom.Generated.layouts = [
-    ("AAssociatePDUBase.header", ">B B I H H 16s 16s 8I"), ("AAssociateRjPDU.format", ">B B I B B B B"),
+    ("AAssociatePDUBase.header", ">B B I H H 16s 16s I I I I I I I I"), ("AAssociateRjPDU.format", ">B B I B B B B"),
     ("PDataTfPDU.header", ">B B I"), ("AReleasePDUBase.format", ">B B I I"), ("AAbortPDU.format", ">B B I B B B B"),
     ("ApplicationContextItem.header", ">B B H"), ("PresentationContextItemRQ.header", ">B B H B B B B"),
     ("PresentationContextItemAC.header", ">B B H B B B B"), ("AbstractSyntaxSubItem.header", ">B B H"),
